@@ -76,6 +76,15 @@ class EngineHandover(EngineC):
         return any(" E:" in l for l in cr.impl)
 
 
+class EngineClient(EngineC):
+    """client lives only (gnet.Client against a plain Go peer): the client half of C01, C02, C03, C04"""
+    ncases = (10, 200)
+
+    def gen_args(self, tier, seed):
+        n = self.ncases[0] if tier == "quick" else self.ncases[1]
+        return [["-seed", str(seed), "-cases", str(n), "-only", "all"]]
+
+
 class EngineRace(EngineC):
     """the same engine lives built with the race detector, while foreign goroutines hammer the
     concurrency-safe API from OnBoot / OnOpen on; every race report is an oracle failure"""
